@@ -147,6 +147,26 @@ def cut_at_thrust(g, onodes):
     return {c: f"Tcut{i}" for i, c in enumerate(sorted(comps))}
 
 
+def cut_at_first_norm3(g, onodes):
+    """same idea for mr_ref_traj / f_ref, whose thrust magnitude output is clamped: the FIRST norm of a 3-vector built in
+    the graph is |m (g e3 - a)|; its three components are lowered as free variables (any cut is sound: the obligations are
+    then proved for arbitrary values of the cut nodes, a stronger statement)"""
+    for n, (op, args, _) in enumerate(g.nodes):
+        if op != "SQRT":
+            continue
+        leaves, stack = [], [args[0]]
+        while stack:
+            k = stack.pop()
+            if g.op(k) == "ADD":
+                stack.extend(g.args(k))
+            else:
+                leaves.append(k)
+        comps = [g.args(k)[0] for k in leaves if g.op(k) == "SQ" or (g.op(k) == "MUL" and g.args(k)[0] == g.args(k)[1])]
+        if len(comps) == 3 and len(leaves) == 3 and all(g.op(c) not in ("INPUT", "CONST") for c in comps):
+            return {c: f"Fcut{i}" for i, c in enumerate(sorted(comps))}
+    return {}
+
+
 def position_control_traces():
     f = rdd2.derive_position_control  # re-derived inside build with the stub active
 
@@ -270,7 +290,7 @@ def mr_ref_traces(tier):
     return [_Trace("C14.mr_ref_traj.nominal", ins, b, obs, functions=[mr_ref_traj.derive_mr_ref_traj], decide=nominal_ref, budget_s=900, max_paths=256,
                    note="nominal branch: T > tol, |z_b x x_c| > tol, pitch outside the +-pi/2 band, |cos phi| > tol"),
             _Trace("C14.mr_ref_traj.degenerate", ins, b, obs[:2], functions=[mr_ref_traj.derive_mr_ref_traj], decide=None, budget_s=900, max_paths=512,
-                   witness_candidates=[cand([[-5.0], [0.0], [9.8]]), cand([[0.0], [0.0], [9.8]]), cand([[0.0], [-2.5e-7], [9.8]])],
+                   witness_candidates=[cand([[-5.0], [0.0], [9.8]]), cand([[0.0], [0.0], [9.8]]), cand([[0.0], [-2.5e-7], [9.8]])], cut=cut_at_first_norm3, smt_timeout=120,
                    note="all branches incl. zero thrust and thrust parallel to the heading"),
             _Trace("C14.f_ref.agrees-with-mr_ref_traj", ins7, b_fref,
                    [Ob("f_ref outputs (v_b, omega, omega_dot, M_b, T) = mr_ref_traj outputs at its constants", "a", "b"),
